@@ -10,6 +10,17 @@ from sa.core.index import Index
 ix = Index(Repo(os.environ.get("VERIF_REPO", "/repo")))
 ix2 = Index(Repo(os.environ.get("VERIF_REPO", "/repo")), roots=["dateparser_scripts"])
 keys = sorted(k for k, f in list(ix.funcs.items()) + list(ix2.funcs.items()) if not isinstance(f.node, ast.Lambda))
-json.dump({"_comment": "function keys of the pinned tree (tools/mkinventory.py)", "functions": keys},
+# attributes every class of the pinned tree has (class-level assignments and self.X / cls.X stores in its methods): a store to an
+# attribute that is NOT in this list creates new state, it cannot be a moved construct
+state = {}
+for ck, c in ix.classes.items():
+    names = set(c.attrs)
+    for n in ast.walk(c.node):
+        if isinstance(n, ast.Attribute) and isinstance(n.ctx, ast.Store) and isinstance(n.value, ast.Name) and n.value.id in ("self", "cls"):
+            names.add(n.attr)
+        if isinstance(n, ast.Call) and isinstance(n.func, ast.Name) and n.func.id == "setattr" and len(n.args) == 3 and isinstance(n.args[1], ast.Constant):
+            names.add(str(n.args[1].value))
+    state[ck] = sorted(names)
+json.dump({"_comment": "function keys and per-class attribute names of the pinned tree (tools/mkinventory.py)", "functions": keys, "state": state},
           open(os.path.join(HERE, "sa", "known_functions.json"), "w"), indent=0)
-print(len(keys), "functions")
+print(len(keys), "functions;", sum(len(v) for v in state.values()), "attributes of", len(state), "classes")
